@@ -75,6 +75,9 @@ class Driver:
                 getattr(self, 'op_' + op['op'])(op)
                 if self.stop_after_violation and res.violations:
                     break
+                if self.abandoned:
+                    # the run left what the property quantifies over: nothing further is judged
+                    break
             self.teardown()
         except HarnessError as e:
             res.harness_error = repr(e)
@@ -99,6 +102,7 @@ class Driver:
         return res
 
     stop_after_violation = True
+    abandoned = False
 
     def setup(self):
         pass
